@@ -68,7 +68,7 @@ func runC04(c *Ctx) {
 	if fn := c.Need("isaac/states.(*Ballotbox).countHoldeds"); fn != nil {
 		calls := c.CallsD(fn, "box.newVoteproof(*)")
 		c.ArgIs(fn, "held voteproof emitted is a countHolded result", calls, 1, 0,
-			"box.unfinishedVoterecords()[ι].countHolded(box.local, box.LastPoint(), box.countAfter)[ι]")
+			"box.unfinishedVoterecords()[ι].countHolded(box.local, box.LastPoint(), box.countAfter)[ι′]")
 	}
 	if fn := c.Need("isaac/states.(*voterecords).countHolded"); fn != nil {
 		for _, r := range nonMatchingReturns(c, fn, 0, "nil") {
